@@ -445,13 +445,71 @@ def _gen_plan(family, rng, tier):
         items = _insert_damaged_definitions(rng, items, vs, used_ids)
         if items is None:
             return None
+    cut = None
+    if family in ('c20', 'c20-redef', 'c08-def') and rng.random() < (0.4 if family == 'c08-def' else 0.2) and \
+            not any(it.get('resent') for it in items):
+        # a SECOND STREAM scanned by the same decoder object in the same process: the mirror image of the
+        # first - the same ids defined differently by as many definition messages, the same descriptor lists
+        # over them. It is complete in itself (every id is defined in it before it is used), so its expected
+        # decode is the same whether an implementation keeps or drops the definitions of an earlier scan
+        second = _second_stream(rng, items)
+        if second:
+            cut = len(items)
+            items = items + second
     seps = [streamsim.gen_separator(rng)[1].hex() if rng.random() < 0.5 else '' for _ in range(len(items) + 1)]
     knobs = {'coe': coe, 'compiled': rng.choice([1, 2, 8, 8]) if family == 'c08-def' else None,
              'filecheck': family != 'c08-def' and rng.random() < 0.25, 'sub': sub + ('-fixed' if fixed_layout else ''),
              # a filter expression that accepts every message changes nothing (the scanner then reads each
              # header first and decodes the message a second time)
              'filter': rng.choice([None] * 7 + ['True', '${%length} > 0', '${%n_subsets} >= 0 and ${%edition} > 1'])}
-    return {'knobs': knobs, 'items': items, 'seps': seps}
+    plan = {'knobs': knobs, 'items': items, 'seps': seps}
+    if cut:
+        plan['cut'] = cut
+    return plan
+
+
+def _second_stream(rng, items):
+    reg_b, reg_d, forms = {}, {}, set()
+    out = []
+    for it in items:
+        if it['kind'] == 'std':
+            out.append(json.loads(json.dumps(it)))
+        elif it['kind'] == 'def':
+            b_entries = []
+            for e in it['b_full']:
+                ne = gen_b_entry(rng, e[0])
+                for _try in range(10):
+                    if tuple(ne[2:]) != tuple(e[2:]):
+                        break
+                    ne = gen_b_entry(rng, e[0])
+                b_entries.append(ne)
+            d_entries = [(d[0], d[1], list(d[2])) for d in it['d_full']]
+            a_entries = [('%03d' % rng.randint(200, 255), 'VERIF TABLE A LINE 1', 'LINE 2')
+                         for _ in range(rng.choice([0, 1, 1, 2]))]
+            msg, dtruth = write_definition(rng, it['version'], rng.choice([3, 3, 4]), b_entries, d_entries, a_entries,
+                                           fixed=tuple(it.get('fixed_parts', ())))
+            for e in b_entries:
+                reg_b[e[0]] = (e[1].rstrip(), e[2], e[3], e[4], e[5])
+            for d in d_entries:
+                reg_d[d[0]] = list(d[2])
+            forms |= set(it.get('forms_added', []))
+            out.append({'kind': 'def', 'hex': msg.hex(), 'version': it['version'], 'fixed_parts': dtruth['fixed_parts'],
+                        'b_full': [list(e) for e in b_entries], 'd_full': [[d[0], d[1], list(d[2])] for d in d_entries],
+                        'forms_added': it.get('forms_added', []),
+                        'b': [[e[0], e[2], e[3], e[4], e[5]] for e in b_entries],
+                        'd': [[d[0], d[2]] for d in d_entries], 'redefined': sorted(set(e[0] for e in b_entries)),
+                        'cached_before': [], 'second_stream': True})
+        elif it['kind'] == 'new':
+            try:
+                n2 = gen_data_message(rng, it['version'], reg_b, reg_d, forms, top=it['top'])
+            except Exception:
+                return None
+            n2.update({'kind': 'new', 'reused_template': True, 'defined': sorted(reg_b), 'uses_redefined': True,
+                       'after_cached': False, 'second_stream': True})
+            out.append(n2)
+    if not any(x['kind'] == 'new' for x in out):
+        return None
+    return out
 
 
 def _insert_damaged_definitions(rng, items, vs, used_ids):
@@ -556,12 +614,12 @@ def layout(plan):
             ok = False
             break
         i = stream.find(b'BUFR', i + 1)
-    for s0, it in zip(starts, items):
-        if it['kind'] == 'baddef' and it['fault']['kind'] == 'len':
-            w = bufrgen.walk(stream, s0)
-            if w is not None and w['end'] is not None and stream[w['end']:w['end'] + 4] == b'7777':
-                ok = False      # the length damage still lands on a stop signature: not surely detectable
-    return {'stream': stream, 'starts': starts, 'ok': ok}
+    cut = plan.get('cut')
+    streams = [stream]
+    if cut and 0 < cut < len(items):
+        at = starts[cut] - len(seps[cut] if cut < len(seps) else b'')
+        streams = [stream[:at], stream[at:]]
+    return {'stream': stream, 'streams': streams, 'starts': starts, 'ok': ok}
 
 
 # ----------------------------------------------------------------------------
@@ -581,12 +639,13 @@ def _scan(arg):
     from sim.observe import exc_info, quiet_std, install_step_budget
     quiet_std()
     install_step_budget()
-    stream = bytes.fromhex(arg['stream'])
+    streams = [bytes.fromhex(x) for x in (arg.get('streams') or [arg['stream']])]
     dec = Decoder(compiled_template_cache_max=arg.get('compiled'))
     out = {'deliveries': [], 'exc': None}
     try:
-        for m in generate_bufr_message(dec, stream, continue_on_error=arg['coe'], filter_expr=arg.get('filter')):
-            out['deliveries'].append(_observe(m))
+        for stream in streams:          # one decoder object, one process, one scan after the other
+            for m in generate_bufr_message(dec, stream, continue_on_error=arg['coe'], filter_expr=arg.get('filter')):
+                out['deliveries'].append(_observe(m))
     except Exception as e:
         out['exc'] = exc_info(e)
     return out
@@ -644,10 +703,13 @@ def execute(plan):
                 tr['file'][str(i)] = core.run_in_child(_file_decode, {'root': root, 'hex': it['hex']}, 300)
         arg = {'stream': lay['stream'].hex(), 'coe': kn['coe'], 'compiled': kn.get('compiled'),
                'filter': kn.get('filter')}
+        if len(lay['streams']) > 1:
+            arg['streams'] = [x.hex() for x in lay['streams']]
         if plan['family'] == 'c08-def':
             tr['ref'] = core.run_in_child(_scan, dict(arg, compiled=None), 300)
         if plan['family'] == 'c12-def':
-            tr['ref'] = core.run_in_child(_scan, dict(arg, stream=layout(without_damaged_definitions(plan))['stream'].hex()), 300)
+            tr['ref'] = core.run_in_child(_scan, dict(arg, stream=layout(without_damaged_definitions(plan))['stream'].hex(),
+                                                      streams=None), 300)
         tr.update(_scan(arg))
     finally:
         if tmp:
@@ -784,7 +846,7 @@ def shape(plan, tr=None):
                  bool(it.get('reused_template')))
                 for it in plan['items'])
     return (plan['family'], kn.get('sub'), per, kn.get('coe'), kn.get('compiled'), kn.get('filecheck'),
-            bool(kn.get('filter')))
+            bool(kn.get('filter')), plan.get('cut'))
 
 
 def nontrivial(plan, tr):
@@ -805,14 +867,30 @@ def _copy(plan):
     return json.loads(json.dumps(plan))
 
 
+def _drop(plan, idxs):
+    idxs = set(idxs)
+    p = streamsim._drop(plan, idxs)
+    if plan.get('cut'):
+        cut = plan['cut'] - sum(1 for i in idxs if i < plan['cut'])
+        if 0 < cut < len(p['items']):
+            p['cut'] = cut
+        else:
+            p.pop('cut', None)
+    return p
+
+
 def shrink_candidates(plan):
     n = len(plan['items'])
+    if plan.get('cut'):
+        p = _copy(plan)         # one scan instead of two
+        p.pop('cut')
+        yield p
     if n > 2:
         for a, b in ((0, n // 2), (n // 2, n)):
-            yield streamsim._drop(plan, range(a, b))
+            yield _drop(plan, range(a, b))
     for i in range(n):
         if n > 1:
-            yield streamsim._drop(plan, [i])
+            yield _drop(plan, [i])
     for i, s in enumerate(plan['seps']):
         if s:
             p = _copy(plan)
